@@ -8,7 +8,7 @@ from collections import Counter
 
 PKG = "auth/api/iam"
 # the second file is an add-only exported helper overlaid into package storage (clock control for the in-memory store)
-HARNESS = ["auth/api/iam/zz_verif_c02_test.go", "auth/api/iam/zz_verif_c02jar_test.go", "auth/api/iam/zz_verif_c02pol_test.go", "storage/zz_verif_c02_export.go"]
+HARNESS = ["auth/api/iam/zz_verif_c02_test.go", "auth/api/iam/zz_verif_c02jar_test.go", "auth/api/iam/zz_verif_c02pol_test.go", "auth/api/iam/zz_verif_c02ro_test.go", "storage/zz_verif_c02_export.go"]
 
 REQUIRED = [
     "s2s_token_only_if", "s2s_defect_combination_rejected", "claims_cannot_override", "claims_cannot_override_today",
@@ -20,6 +20,7 @@ REQUIRED = [
     "jar_parse_only_if", "jar_parse_remote_calls", "authorize_endpoint_only_if", "authorize_endpoint_error_leaves_state",
     "token_endpoint_only_if", "token_endpoint_other_grant_rejected",
     "every_session_stems_from_a_signed_request", "code_token_traces_back_to_a_signed_request",
+    "request_object_served_only_if", "request_object_burned_by_any_fetch", "leg_request_object_carries_its_nonce", "fact_request_object_endpoints",
     "policy_load_exact", "s2s_scope_comes_from_a_policy_file", "policy_load_error_kinds", "fact_policy_loader",
     "fact_jar_parse_shape", "fact_jar_validate_shape", "fact_params_get", "fact_authorize_dispatch", "fact_token_dispatch", "fact_oauth_names",
     "fact_verifyvp_args", "fact_audience_exact", "fact_deciding_conditions", "fact_windows", "fact_store_prefixes_distinct", "fact_introspection_fields", "fact_access_token_init", "fact_introspection_init",
@@ -61,6 +62,7 @@ class Oracle:
         self.sessions = {}   # state -> {"spec", "t" (last put), "fulfilled", "nonces": {name: put time}, "i"}
         self.nonce_used = set()
         self.codes = {}      # code name -> {"session", "t", "redeemed", "i"}
+        self.legs = {}       # request object name -> the leg that announced it
 
     def policy(self, scope):
         for p in self.cfg.get("policy", []):
@@ -419,6 +421,51 @@ class Oracle:
                   "redirect_uri": s("redirect_uri"), "defects": op.get("jar_defects")}
         self.judge_authreq(i, signed, res)
 
+    def note_legs(self, i, op, line):
+        """every OpenID4VP leg announces one request object, named after the leg's nonce"""
+        toks = re.split(r"[ \[\]]+", line)
+        for k, x in enumerate(toks):
+            if not x.startswith("nonce=on#"):
+                continue
+            owner, state = None, None
+            if k > 0 and toks[k - 1].startswith("next="):
+                owner, state = toks[k - 1][5:], op.get("state")
+            else:
+                if k > 0 and toks[k - 1].startswith("state="):
+                    state = toks[k - 1][6:]
+                if k + 1 < len(toks) and toks[k + 1].startswith("owner="):
+                    owner = toks[k + 1][6:]
+            subject = op.get("subject")
+            if op.get("op") in ("authresp", "race") and state in self.sessions:
+                subject = self.sessions[state]["spec"].get("own_subject", subject)
+            self.legs["ro:" + x[6:]] = {"subject": subject, "owner": owner, "state": state, "nonce": x[6:], "t": op["t"], "i": i, "attempts": []}
+
+    def judge_reqobj(self, i, op, line):
+        """a request object is handed out (signed) only to the first fetch, under the tenant that opened the leg, by the method the
+        leg announced (user wallet: post, organization wallet: get), and it carries exactly the leg's nonce and state"""
+        leg = self.legs.get(op.get("id"))
+        if line.startswith("ok "):
+            got = dict(x.split("=", 1) for x in line.split(" ")[1:] if "=" in x)
+            if "SIGNED-WITH-KEY-OF" in line:
+                self.bad("request-object-signed-with-foreign-key", f"op {i}: {line[-80:]}", [i])
+            if leg is None:
+                self.bad("request-object-served-for-unknown-id", f"op {i}: id {op.get('id')!r}", [i])
+            else:
+                idx = [leg["i"]] + leg["attempts"] + [i]
+                if leg["attempts"]:
+                    self.bad("request-object-served-twice", f"ops {leg['attempts']} and {i}: request object {op.get('id')} was already fetched", idx)
+                if op.get("subject") != leg["subject"]:
+                    self.bad("request-object-served-under-another-tenant", f"op {i}: leg of {leg['subject']!r}, fetched under {op.get('subject')!r}", idx)
+                want = "post" if leg["owner"] == "user" else "get"
+                if op.get("method") != want:
+                    self.bad("request-object-served-by-the-other-method", f"op {i}: announced {want}, fetched by {op.get('method')}", idx)
+                if got.get("nonce") != leg["nonce"] or got.get("state") != leg["state"]:
+                    self.bad("request-object-carries-another-nonce-or-state", f"op {i}: leg nonce/state {leg['nonce']}/{leg['state']}, object {got.get('nonce')}/{got.get('state')}", idx)
+                if op["t"] > leg["t"] + self.validity:
+                    self.bad("request-object-served-after-expiry", f"op {i}", idx)
+        if leg is not None:
+            leg["attempts"].append(i)
+
     def judge_polload(self, i, op, line):
         """policy directory -> mapping: judged from the generated files only (suffix .json, not a directory)"""
         loaded = [e for e in op.get("entries") or [] if not e.get("is_dir") and e["name"].endswith(".json")] if op.get("dir") == "present" else []
@@ -447,6 +494,11 @@ class Oracle:
             self.bad("policy-load-refused-a-valid-directory", f"op {i}: {line} ({[e['name'] for e in op.get('entries') or []]})", [i])
 
     def feed(self, i, op, line):
+        self.feed1(i, op, line)
+        if op.get("op") in ("authreq", "authz", "authresp", "race"):
+            self.note_legs(i, op, line)
+
+    def feed1(self, i, op, line):
         kind = op.get("op")
         if kind == "cfg":
             self.reset(op)
@@ -462,6 +514,8 @@ class Oracle:
             self.judge_authz(i, op, line)
         elif kind == "polload":
             self.judge_polload(i, op, line)
+        elif kind == "reqobj":
+            self.judge_reqobj(i, op, line)
         elif kind == "seed":
             self.sessions[op["state"]] = {"spec": op["session"], "t": op["t"], "fulfilled": [], "nonces": {op["nonce"]: op["t"]}, "i": i}
         elif kind == "authresp":
@@ -501,6 +555,10 @@ def run(ctx):
         "model scope: api.go HandleTokenRequest / introspectAccessToken / IntrospectAccessToken(Extended), s2s_vptoken.go, validation.go, session.go (PEXConsumer), "
         "access_token.go, openid4vp.go (handleAuthorizeResponseSubmission, validatePresentationNonce, handleAccessTokenRequest), pkce_util.go, "
         "storage/session.go (Get/Put/Delete/GetAndDelete on the in-memory store), generated MarshalJSON of the introspection response",
+        "deepening 2026-09-28, model scope added: jar.go Parse / validate / compareThumbprint, params.go get, api.go HandleAuthorizeRequest / handleAuthorizeRequest (response_type switch) / "
+        "HandleTokenRequest (grant_type switch), first three checks of handleAuthorizeRequestFromVerifier, policy/local.go Configure / loadFromDirectory / loadFromFile; "
+        "modelled, not verified there: crypto.ParseJWT / jwx (signature verdict of a request object = generator ground truth, claim types from the real parser), key thumbprints (abstract key index), "
+        "IAMClient and key resolver (scripted), JSON-schema validation of policy files (generator ground truth)",
         "harness: VerifyVP is a gomock stub with scripted verdicts that also evaluates the real ProofOptions.ValidAt on a virtual clock; "
         "clock advance is realised by ageing every stored session entry (time translation); JSON-LD presentations only",
     ]
@@ -516,7 +574,7 @@ def run(ctx):
         "375d6d0 (s2s nonce TTL 10 s < acceptance window 15 s: presentation replay; also confirmed on the real clock with TestVerifC02RealTime), "
         "6c1cde3 (credential-less presentation reset the expected subject). Open: s2s grant fulfils one of two configured definitions.",
         "not covered: the real verifier (VerifyVP is scripted; C01), JWT presentations get the JSON-LD window rule from the stub (wider than the real nbf/exp check), "
-        "the authorization-request leg (sessions are seeded into the real stores the way handleAuthorizeRequestFromHolder stores them), Redis/memcached session stores, "
+        "memcached session store, "
         "concurrent requests other than two overlapping posts of one authorization response (C05), HTTP routing/binding of the generated server wrapper (handlers are called through the StrictServerInterface methods), "
         "legacy v1 auth/services/oauth/authz_server.go (JWT-bearer grant of the n2n flow) is outside the model",
     ]
@@ -571,7 +629,7 @@ def run(ctx):
         a, b = world_of(idx[0])
         # replay = the world's configuration + every state-changing op up to the last op involved (time advances included)
         keep = [a] + [k for k in range(a + 1, idx[-1] + 1)
-                      if k in idx or ops[k].get("op") in ("advance", "seed", "authresp", "authreq", "authz", "race") or (ops[k].get("op") in ("s2s", "code") and impl[k].startswith("200"))]
+                      if k in idx or ops[k].get("op") in ("advance", "seed", "authresp", "authreq", "authz", "race", "reqobj") or (ops[k].get("op") in ("s2s", "code") and impl[k].startswith("200"))]
         replay = "\n".join(clean(ops[k]) for k in keep) + "\n"
         if ctx.violation(sig, text, re.sub(r"[^A-Za-z0-9_.-]+", "_", sig.split(":", 1)[1])[:80] + ".jsonl", replay):
             new_sigs.append(sig)
@@ -634,6 +692,10 @@ def run(ctx):
             q = o.get("q") or {}
             delivery = "both" if q.get("request") and q.get("request_uri") else "request" if q.get("request") else ("uri-" + (q.get("request_uri_method") or "default")) if q.get("request_uri") else "none"
             distinct.add(("authz", tuple(jd), cls, delivery))
+        elif o.get("op") == "reqobj":
+            cls = l.split(" ")[0]
+            outcomes["reqobj:" + (o.get("method") or "") + ":" + cls] += 1
+            distinct.add(("reqobj", o.get("method"), tuple(o.get("defects") or []), cls, o.get("wallet_nonce") is not None, o.get("wallet_issuer")))
         elif o.get("op") == "polload":
             cls = l.split(" ")[0]
             outcomes["polload:" + o.get("dir", "") + ":" + cls] += 1
